@@ -133,6 +133,18 @@ func c37MakeDB(dir, name string, id int, v string) []byte {
 	return b
 }
 
+// c37Scratch returns a scratch directory on tmpfs when there is one (a run opens
+// a few hundred Stores; their fsyncs are irrelevant to the property).
+func c37Scratch(t *testing.T) string {
+	if st, err := os.Stat("/dev/shm"); err == nil && st.IsDir() {
+		if d, err := os.MkdirTemp("/dev/shm", "verif-c37-"); err == nil {
+			t.Cleanup(func() { os.RemoveAll(d) })
+			return d
+		}
+	}
+	return kit.Scratch(t)
+}
+
 func c37Histories(depth int) []string {
 	var out []string
 	var rec func(h string)
@@ -172,14 +184,14 @@ func TestVerif_C37(t *testing.T) {
 	r.Rule(fmt.Sprintf("every history of length <=%d over {write, strong read, upload round, upload round with storage failure, load a database file, boot from a database file} on a fresh real single-node Store with the real Provider and Uploader, followed by one more upload round; a reference model says after every round whether an upload was due and what rows it must contain; every uploaded file is opened with SQLite. distinct = (history, per-round outcome)", depth))
 	r.Assume("rounds and writes do not overlap (sequential histories); backups taken while writes are in flight are C21")
 
-	scratch := kit.Scratch(t)
+	scratch := c37Scratch(t)
 	bootDB := c37MakeDB(scratch, "boot.db", 100, "boot")
 	loadDB := c37MakeDB(scratch, "load.db", 200, "load")
 
 	hs := c37Histories(depth)
 	var mu sync.Mutex
 	var wg sync.WaitGroup
-	sem := make(chan struct{}, 12)
+	sem := make(chan struct{}, 36)
 	for i, h := range hs {
 		wg.Add(1)
 		sem <- struct{}{}
@@ -207,7 +219,8 @@ func c37Run(t *testing.T, r *kit.Run, h string, bootDB, loadDB []byte) (string, 
 			panic(fmt.Sprintf("harness: history %q: %s: %v", h, what, err))
 		}
 	}
-	dir := kit.Scratch(t)
+	dir := c37Scratch(t)
+	defer os.RemoveAll(dir)
 	ln, err := net.Listen("tcp", "127.0.0.1:0")
 	must("listen", err)
 	defer ln.Close()
